@@ -4249,3 +4249,56 @@ func ruleMustNotGetsMatchAllBase(r *Report, rule string) {
 		undecidedf("%s: match-all base assignment not found", fi.Name)
 	}
 }
+
+// ruleSegmentRefIffCarried (K1): an introducer builds the next root from the
+// segments of the current one.  A reference is taken on an old segment
+// (`x.segment.AddRef()`) exactly when that segment is put into the new
+// snapshot: the AddRef sits in the same basic block as the store that places
+// the segment (append to / element store into <new>.segment).  An AddRef on a
+// path that does not carry the segment is never released (the file stays open
+// and mapped after Close); a carried segment without AddRef is closed while in
+// use.
+func ruleSegmentRefIffCarried(r *Report, rule string, in introducers) {
+	n := 0
+	for _, fi := range []*FuncInfo{in.Segment, in.Persist, in.Merge} {
+		r.Fn(fi)
+		info := fi.Pkg.TypesInfo
+		g := buildCFG(info, fi.Decl.Body)
+		// placements: stores into a `.segment` field of IndexSnapshot (append or element store)
+		var places []ast.Node
+		ast.Inspect(fi.Decl.Body, func(x ast.Node) bool {
+			as, ok := x.(*ast.AssignStmt)
+			if !ok || len(as.Lhs) != 1 {
+				return true
+			}
+			l := ast.Unparen(as.Lhs[0])
+			if ix, ok := l.(*ast.IndexExpr); ok {
+				l = ix.X
+			}
+			if isField(info, l, "IndexSnapshot", "segment") {
+				places = append(places, as)
+			}
+			return true
+		})
+		for _, c := range callsIn(fi.Decl.Body) {
+			f := callee(info, c)
+			if f == nil || f.Name() != "AddRef" || !strings.Contains(qname(f), "Segment") {
+				continue
+			}
+			n++
+			lc, ok := g.Locate(c)
+			same := false
+			if ok {
+				for _, pl := range places {
+					if lp, ok2 := g.Locate(pl); ok2 && lp.B == lc.B {
+						same = true
+					}
+				}
+			}
+			r.Ob(rule, fi.Name+"/"+exprShort(c)+"-next-to-its-placement", c.Pos(), same, "the segment reference taken by "+exprStr(c)+" must be taken in the same straight-line block that stores the segment into the new snapshot's .segment (taken iff carried); here no such store shares its block, so on some path the reference is taken for a segment that is dropped (leaked: file stays open/mapped after Close) or a carried segment goes without one")
+		}
+	}
+	if n < 3 {
+		undecidedf("segment AddRef rule matched %d sites", n)
+	}
+}
